@@ -68,7 +68,7 @@ pub fn parse_length_range(
 
 /// Parse alphanumeric string (letters and digits only)
 pub fn parse_alphanumeric(input: &str, field_name: &str) -> Result<String, ParseError> {
-    if !input.chars().all(|c| c.is_alphanumeric()) {
+    if !input.chars().all(|c| c.is_ascii_alphanumeric()) {
         return Err(ParseError::InvalidFormat {
             message: format!("{} must contain only letters and digits", field_name),
         });
@@ -78,7 +78,10 @@ pub fn parse_alphanumeric(input: &str, field_name: &str) -> Result<String, Parse
 
 /// Parse uppercase letters only
 pub fn parse_uppercase(input: &str, field_name: &str) -> Result<String, ParseError> {
-    if !input.chars().all(|c| c.is_uppercase() || c.is_whitespace()) {
+    if !input
+        .chars()
+        .all(|c| c.is_ascii_uppercase() || c.is_ascii_whitespace())
+    {
         return Err(ParseError::InvalidFormat {
             message: format!("{} must contain only uppercase letters", field_name),
         });
@@ -88,7 +91,7 @@ pub fn parse_uppercase(input: &str, field_name: &str) -> Result<String, ParseErr
 
 /// Parse numeric string (digits only)
 pub fn parse_numeric(input: &str, field_name: &str) -> Result<String, ParseError> {
-    if !input.chars().all(|c| c.is_numeric()) {
+    if !input.chars().all(|c| c.is_ascii_digit()) {
         return Err(ParseError::InvalidFormat {
             message: format!("{} must contain only digits", field_name),
         });
@@ -117,7 +120,7 @@ pub fn parse_swift_chars(input: &str, field_name: &str) -> Result<String, ParseE
 
     if !input
         .chars()
-        .all(|c| c.is_alphanumeric() || SWIFT_SPECIAL.contains(c))
+        .all(|c| c.is_ascii_alphanumeric() || SWIFT_SPECIAL.contains(c))
     {
         return Err(ParseError::InvalidFormat {
             message: format!(
@@ -137,29 +140,36 @@ pub fn parse_bic(input: &str) -> Result<String, ParseError> {
         });
     }
 
+    // BIC characters are ASCII letters and digits (byte-range slicing below relies on it)
+    if !input.is_ascii() {
+        return Err(ParseError::InvalidFormat {
+            message: "BIC must contain only letters and digits".to_string(),
+        });
+    }
+
     // First 4 chars: Bank code (letters)
-    if !input[0..4].chars().all(|c| c.is_alphabetic()) {
+    if !input[0..4].chars().all(|c| c.is_ascii_alphabetic()) {
         return Err(ParseError::InvalidFormat {
             message: "BIC bank code (first 4 chars) must be letters".to_string(),
         });
     }
 
     // Next 2 chars: Country code (letters)
-    if !input[4..6].chars().all(|c| c.is_alphabetic()) {
+    if !input[4..6].chars().all(|c| c.is_ascii_alphabetic()) {
         return Err(ParseError::InvalidFormat {
             message: "BIC country code (chars 5-6) must be letters".to_string(),
         });
     }
 
     // Next 2 chars: Location code (alphanumeric)
-    if !input[6..8].chars().all(|c| c.is_alphanumeric()) {
+    if !input[6..8].chars().all(|c| c.is_ascii_alphanumeric()) {
         return Err(ParseError::InvalidFormat {
             message: "BIC location code (chars 7-8) must be alphanumeric".to_string(),
         });
     }
 
     // Optional 3 chars: Branch code (alphanumeric)
-    if input.len() == 11 && !input[8..11].chars().all(|c| c.is_alphanumeric()) {
+    if input.len() == 11 && !input[8..11].chars().all(|c| c.is_ascii_alphanumeric()) {
         return Err(ParseError::InvalidFormat {
             message: "BIC branch code (chars 9-11) must be alphanumeric".to_string(),
         });
@@ -276,7 +286,7 @@ pub fn parse_currency(input: &str) -> Result<String, ParseError> {
         });
     }
 
-    if !input.chars().all(|c| c.is_uppercase()) {
+    if !input.chars().all(|c| c.is_ascii_uppercase()) {
         return Err(ParseError::InvalidFormat {
             message: "Currency code must be uppercase letters".to_string(),
         });
